@@ -35,6 +35,7 @@ class GenCfg:
         self.p_default = rng.choice([0.2, 0.5, 0.8])
         self.p_callable = rng.choice([0.0, 0.2, 0.5])
         self.p_raw_default = 0.0
+        self.p_empty_section = 0.0
         self.p_required = rng.choice([0.0, 0.1, 0.3])
         self.p_name = rng.choice([0.0, 0.2])
         self.p_sensitive = rng.choice([0.0, 0.0, 0.3])
@@ -148,7 +149,7 @@ class _Gen:
         elif kind == "dict":
             if rng.random() < 0.7 and not as_item:
                 if rng.random() < 0.7:
-                    node["kf"] = self.leaf(rng.choice(["string", "string", "int", "ipv4addr"]), as_item=True)
+                    node["kf"] = self.leaf(rng.choice(["string", "string", "int", "ipv4addr", "bytes"]), as_item=True)
                 if rng.random() < 0.8 or "kf" not in node:
                     node["vf"] = self.leaf(rng.choice(ITEM_KINDS), as_item=True)
         if as_item:
@@ -199,6 +200,8 @@ class _Gen:
             node["dynamic"] = True
         taken = set()
         n = rng.randint(1, c.width)
+        if not top and node.get("dynamic") and getattr(c, "p_empty_section", 0.0) and rng.random() < c.p_empty_section:
+            n = 0          # a free-form section: no declared field at all
         for _ in range(n):
             k = self.key(taken, prefix)
             if k is None:
